@@ -27,6 +27,10 @@ static ssize_t slurp(const char *path, char *buf, size_t cap) {
 }
 static void hexout(FILE *o, const char *p, size_t n) { put_hex(o, p, n); }
 
+/* snapshot of all ancestors, then one filter call per argument; reports "R v,v,.." and "S <side record>" */
+static void report_calls(FILE *rep, const char *id, const char *argspec, int orphan);
+static void propagate(int st);
+
 /* the caller: snapshot, run, report through fd */
 static void caller(int fd, const char *id, const char *argspec, int orphan, pid_t oldparent) {
     FILE *rep = fdopen(fd, "w");
@@ -34,6 +38,13 @@ static void caller(int fd, const char *id, const char *argspec, int orphan, pid_
         for (int i = 0; i < 20000 && getppid() == oldparent; i++) usleep(1000);
         if (getppid() == oldparent) { fprintf(rep, "R skip\nS -\nD\n"); fflush(rep); _exit(0); }   /* not re-parented in 20 s: no verdict */
     }
+    report_calls(rep, id, argspec, orphan);
+    fprintf(rep, "D\n");
+    fflush(rep);
+    _exit(0);
+}
+
+static void report_calls(FILE *rep, const char *id, const char *argspec, int orphan) {
     char *side = 0; size_t sl = 0; FILE *s = open_memstream(&side, &sl);
     char *truth = 0; size_t tl = 0; FILE *t = open_memstream(&truth, &tl);
     pid_t self = getpid(), pp = getppid();
@@ -83,8 +94,44 @@ static void caller(int fd, const char *id, const char *argspec, int orphan, pid_
         free(eff);
     }
     fclose(s);
-    fprintf(rep, "\nS %s\nD\n", side);
+    fprintf(rep, "\nS %s\n", side);
     fflush(rep);
+    free(spec); free(side); free(truth);
+}
+
+/* ---- histories: a sequence of steps carried out along one line of descent
+ *   hist <id> <plain|ns> <step;step;...>      n:<namehex>  prctl(PR_SET_NAME)      f  fork, go on in the child
+ *                                             F:<pid>      fork with that pid (clone3 set_tid; mode ns only)
+ *                                             c:<arghex>   snapshot + filter call in the current process
+ *        -> ok <verdict of every c step, in order>      side records <id>#<k> (k-th call)
+ * mode ns: the steps run below the init process of a fresh pid namespace with its own /proc (needs root; "ok skip" otherwise). */
+#include <sched.h>
+#include <stdint.h>
+#include <sys/mount.h>
+#include <sys/syscall.h>
+#include <linux/sched.h>
+
+static pid_t fork_with_pid(pid_t want) {
+    if (want == 0) return fork();
+    pid_t set_tid[1] = { want };
+    struct clone_args ca; memset(&ca, 0, sizeof ca);
+    ca.exit_signal = SIGCHLD; ca.set_tid = (uint64_t)(uintptr_t) set_tid; ca.set_tid_size = 1;
+    return (pid_t) syscall(SYS_clone3, &ca, sizeof ca);
+}
+
+static void hist_steps(FILE *rep, const char *id, char *steps) {
+    char *save = 0; int k = 0;
+    for (char *st = strtok_r(steps, ";", &save); st; st = strtok_r(0, ";", &save)) {
+        if (st[0] == 'n' && st[1] == ':') { vbytes nm = parse_bytes(st + 2); prctl(PR_SET_NAME, nm.p); }
+        else if (st[0] == 'c' && st[1] == ':') { char key[128]; snprintf(key, sizeof key, "%s#%d", id, k++); report_calls(rep, key, st + 2, 0); }
+        else if (st[0] == 'f' || st[0] == 'F') {
+            fflush(rep);
+            pid_t ch = fork_with_pid(st[0] == 'F' ? (pid_t) atoi(st + 2) : 0);
+            if (ch < 0) { fprintf(rep, "K\n"); fflush(rep); _exit(0); }
+            if (ch > 0) { int ws; waitpid(ch, &ws, 0); propagate(ws); _exit(0); }
+        }
+    }
+    fprintf(rep, "D\n"); fflush(rep);
     _exit(0);
 }
 
@@ -133,6 +180,43 @@ static void handle(int nf, char **f, FILE *out) {
         const char *sp = getenv("VERIF_SPAWN_SIDE");
         if (sp && side) { FILE *sf = fopen(sp, "a"); if (sf) { fprintf(sf, "%s\n", side); fclose(sf); } }
         fprintf(out, "ok\t%s", res);
+    } else if (!strcmp(f[0], "hist") && nf == 4) {
+        int ns = !strcmp(f[2], "ns");
+        int pfd[2]; if (pipe(pfd)) { fprintf(out, "driver-error:pipe"); return; }
+        pid_t top = fork();
+        if (top < 0) { fprintf(out, "driver-error:fork"); return; }
+        if (top == 0) {
+            close(pfd[0]);
+            FILE *rep = fdopen(pfd[1], "w");
+            if (ns) {
+                if (unshare(CLONE_NEWPID | CLONE_NEWNS)) { fprintf(rep, "K\n"); fflush(rep); _exit(0); }
+                pid_t init = fork();
+                if (init < 0) { fprintf(rep, "K\n"); fflush(rep); _exit(0); }
+                if (init > 0) { int ws; waitpid(init, &ws, 0); propagate(ws); _exit(0); }
+                if (mount(0, "/", 0, MS_REC | MS_PRIVATE, 0) || mount("proc", "/proc", "proc", 0, 0)) { fprintf(rep, "K\n"); fflush(rep); _exit(0); }
+            }
+            hist_steps(rep, f[1], f[3]);
+        }
+        close(pfd[1]);
+        FILE *rp = fdopen(pfd[0], "r");
+        char *line = 0; size_t cap = 0; ssize_t len; int done = 0, skip = 0, nres = 0;
+        char *resb = 0; size_t resl = 0; FILE *res = open_memstream(&resb, &resl);
+        char *sideb = 0; size_t sidel = 0; FILE *side = open_memstream(&sideb, &sidel);
+        while ((len = getline(&line, &cap, rp)) >= 0) {
+            if (len && line[len - 1] == '\n') line[--len] = 0;
+            if (line[0] == 'R') { fprintf(res, "%s%s", nres++ ? "," : "", line + 2); }
+            else if (line[0] == 'S') fprintf(side, "%s\n", line + 2);
+            else if (line[0] == 'D') done = 1;
+            else if (line[0] == 'K') skip = 1;
+        }
+        fclose(rp); fclose(res); fclose(side);
+        int st; waitpid(top, &st, 0);
+        propagate(st);
+        if (skip) { fprintf(out, "ok\tskip"); return; }
+        if (!done) { fprintf(out, "exit:lost"); return; }
+        const char *sp = getenv("VERIF_SPAWN_SIDE");
+        if (sp) { FILE *sf = fopen(sp, "a"); if (sf) { fputs(sideb, sf); fclose(sf); } }
+        fprintf(out, "ok\t%s", nres ? resb : "-");
     } else fprintf(out, "driver-error:bad-case");
 }
 
